@@ -12,6 +12,7 @@ independently of the model, and compared with the implementation."""
 import json
 import random
 import shutil
+import subprocess
 import tempfile
 
 import lib
@@ -182,10 +183,12 @@ def gen_schema1(rnd):
         rnd.shuffle(ident[1])
     sc.edges = edges
     # identityref leaves and typedefs
+    base_of = {}
     if visible:
         for li in range(rnd.choice([0, 1, 1, 2, 3])):
             holder = rnd.choice(vis) if rnd.random() < 0.9 else rnd.choice(sc.mods)
             bp, bn = rnd.choice(visible)
+            base_of["l%d" % li] = (bp, bn)
             if rnd.random() < 0.7:
                 holder.leaves.append(("l%d" % li, "ref", ref_string(rnd, sc, holder, bp, bn)))
             else:
@@ -243,6 +246,10 @@ def gen_schema1(rnd):
     else:
         sc.variant = "free"
         sc.edges = None
+        # the mutations below can break the lookup of a typedef (not an identity matter): read the base directly
+        for m in sc.mods:
+            m.leaves = [lf if lf[1] == "ref" else (lf[0], "ref", ref_string(rnd, sc, m, *base_of[lf[0]])) for lf in m.leaves]
+            m.typedefs = []
         for _ in range(rnd.choice([1, 2, 3])):
             k = rnd.random()
             part = rnd.choice(sc.mods)
@@ -352,6 +359,12 @@ def parse_ml(line):
     return "ok", vals, [unhex(x) for x in right.split()]
 
 
+def part_of_key(gk):
+    """(is submodule, name) of the (sub)module that declares the identity the harness calls gk"""
+    mod = gk.split(":", 1)[0]
+    return (True, mod.split("/", 1)[1]) if "/" in mod else (False, mod)
+
+
 def conv_key(sc, gk):
     """the harness names an identity '<module>:<name>' or '<belongs-to>/<submodule>:<name>'"""
     mod, name = gk.split(":", 1)
@@ -383,16 +396,22 @@ def parse_go(sc, line):
     vals, leaves = {}, {}
     for m in run["modules"]:
         for i in m.get("identities") or []:
-            vals.setdefault(conv_key(sc, i["name"]), []).append([conv_key(sc, v) for v in i["values"]])
+            vals.setdefault(conv_key(sc, i["name"]), []).append((list(part_of_key(i["name"])),
+                                                                 [conv_key(sc, v) for v in i["values"]]))
         lf = {}
         walk_leaves(m.get("tree"), lf)
         for n, ts in lf.items():
             for t in ts:
+                # (a submodule included by two modules is merged into the tree of only one of them, which one
+                # depends on map order -- C05/C13 matter: only the distinct observations of a leaf are kept)
                 if "idbase" in t:
-                    leaves.setdefault(n, []).append((conv_key(sc, t["idbase"]),
-                                                     [conv_key(sc, v) for v in t.get("idvalues") or []]))
+                    ob = [conv_key(sc, t["idbase"]), [conv_key(sc, v) for v in t.get("idvalues") or []]]
                 else:
-                    leaves.setdefault(n, []).append((None, []))
+                    ob = [None, []]
+                if ob not in leaves.setdefault(n, []):
+                    leaves[n].append(ob)
+    for n in leaves:
+        leaves[n].sort(key=json.dumps)
     return "ok", vals, leaves
 
 
@@ -423,7 +442,7 @@ def judge(sc, go3, mls):
     gos = [parse_go(sc, g) for g in go3]
     for g in gos:
         if g[0].startswith("broken"):
-            return "harness: " + g[0]
+            return "implementation crashed, did not finish, or the harness is broken: " + g[0][7:]
     if len({json.dumps(g, sort_keys=True) for g in gos}) != 1:
         return "implementation output differs between runs of the same schema (map order leaks)"
     g = gos[0]
@@ -442,8 +461,16 @@ def judge(sc, go3, mls):
         return "a %s schema is accepted" % sc.variant
     if g[0] != "ok":
         return None
-    gvals, gleaves = g[1], g[2]
+    gleaves = g[2]
     mvals, mbases = m[1], m[2]
+    vis = [(p.sub, p.name) for p in sc.visible_parts()]
+    gvals = {}     # identities declared in parts the dictionary is built from
+    for k, decls in g[1].items():
+        for (sub, pname), v in decls:
+            if (sub, pname) in vis:
+                gvals.setdefault(k, []).append(v)
+            elif v:
+                return "identity %s of %s, which no loaded module includes, has Values %s" % (k, pname, v)
     for k, v in mvals.items():
         if k not in gvals:
             return "identity %s of the model's dictionary is not declared in the implementation's dump" % k
@@ -451,11 +478,11 @@ def judge(sc, go3, mls):
             if decl != v:
                 return "Values of %s: impl=%s model=%s" % (k, decl, v)
     for k, decls in gvals.items():
-        if k not in mvals and any(decls):
-            return "identity %s outside the dictionary has Values %s" % (k, decls)
+        if k not in mvals:
+            return "identity %s is not in the model's dictionary" % k
     refs = refs_of(sc)
     for (leaf, _, _, _), bk in zip(refs, mbases):
-        for gb, gv in gleaves.get(leaf, [(None, [])]):
+        for gb, gv in gleaves.get(leaf, [[None, []]]):
             if gb != bk:
                 return "identityref leaf %s: base impl=%s model=%s" % (leaf, gb, bk)
             if gv != mvals.get(bk):
@@ -532,11 +559,42 @@ ORACLES = [(0, 0, 0), (1, 1, 1), (2, 1, 3), (4, 2, 0)]
 GO_RUNS = 3
 
 
-def run_all(schemas):
+def go_runs(golines, tmp, timeout):
+    """GO_RUNS runs of every case; a run that does not finish in time yields 'TIMEOUT' observations"""
+    def one():
+        try:
+            return lib.run_go(golines, cwd=tmp, timeout=timeout)
+        except subprocess.TimeoutExpired:
+            return ["TIMEOUT"] * len(golines)
+    go = [one() for _ in range(GO_RUNS)]
+
+    # a fatal error (stack overflow) kills the harness process and loses the buffered output of its whole
+    # shard: re-run what was lost in small shards, then the remaining few one per process, so that the
+    # replay names a case that really crashes (bounded: crashing is slow)
+    def lost_of(g):
+        return [i for i, o in enumerate(g) if o.startswith("CRASH") or o == "NOT-RUN"]
+    g = go[0]
+    lost = lost_of(g)[:1500]
+    try:
+        if lost:
+            again = lib.run_go([golines[i] for i in lost], cwd=tmp, shards=max(1, len(lost) // 8), timeout=300)
+            for i, o in zip(lost, again):
+                g[i] = o
+            for i in lost_of(g)[:24]:
+                g[i] = lib.run_go([golines[i]], cwd=tmp, shards=1, timeout=120)[0]
+    except subprocess.TimeoutExpired:
+        pass
+    for g2 in go[1:]:          # what the other runs lost to a crash of a neighbour is not held against the case
+        for i in lost_of(g2):
+            g2[i] = g[i]
+    return go
+
+
+def run_all(schemas, timeout=900):
     golines = [go_line(sc) for sc in schemas]
     tmp = tempfile.mkdtemp(prefix="c11cwd")
     try:
-        go = [lib.run_go(golines, cwd=tmp) for _ in range(GO_RUNS)]
+        go = go_runs(golines, tmp, timeout)
     finally:
         shutil.rmtree(tmp, ignore_errors=True)
     mllines = [ml_line(sc, o) for sc in schemas for o in ORACLES]
@@ -547,7 +605,7 @@ def run_all(schemas):
 
 def gen(tier, seed):
     rnd = random.Random(seed)
-    n = 700 if tier == "quick" else 12000
+    n = 4000 if tier == "quick" else 60000
     return fixed_schemas() + [gen_schema(rnd) for _ in range(n)]
 
 
@@ -560,7 +618,7 @@ def replay_of(sc):
 
 def run(res, tier, seed, proof):
     schemas = gen(tier, seed)
-    go, ml = run_all(schemas)
+    go, ml = run_all(schemas, timeout=240 if tier == "quick" else 1500)
     hist = dict(clean=0, cyclic=0, dangling=0, free=0, accepted=0, rejected=0, with_submodule=0, with_leaf=0,
                 max_values=0, identities=0)
     nontrivial = set()
